@@ -38,6 +38,7 @@ def run(ctx):
     ctx.require(len(sub_scans) >= 1, "T2-subgroup-scanned", ct.name, "scan_and_connect(word in subgroup_gens)",
                 "the words of the subgroup_gens parameter are scanned", "no scan_and_connect call takes its word from iterating the subgroup_gens parameter: the subgroup does not constrain the table")
     for bi, t in sub_scans:
+        every_iteration_reaches(ctx, "T3-no-skipped-subgroup-generator", ct, bi, "subgroup-loop->scan_and_connect", "some subgroup generator can be skipped: the table is that of a smaller subgroup")
         st = norm(ct.origin(t["args"][2]), g)
         ok = st[0] == "call" and st[1].endswith("CosetTable::canon") and len(st[2]) == 2 and st[2][1] == ("int", BASE_ROW)
         k = st[2][1] if st[0] == "call" and len(st[2]) == 2 else st
